@@ -1,8 +1,347 @@
 import BddVerif.Drive.Util
-/-! Driver for C14 — stub, to be written. -/
+import BddVerif.Model.Parser
+/-!
+Driver for C14. For every observed case it
+* recomputes the outcome with the MODEL (`Parser.parse`, `Parser.display`) — correspondence, and
+* evaluates the property's own predicate on the OBSERVED outcome with an INDEPENDENT reference
+  parser: a flat lexer (no token tree, parentheses are ordinary tokens) followed by a classical
+  recursive-descent parser for the declarative grammar
+    iff ::= imp '<=>' iff | imp      imp ::= cond '=>' imp | cond     cond ::= or '?' or ':' or | or
+    or ::= and '|' or | and          and ::= xor '&' and | xor        xor ::= term '^' xor | term
+    term ::= '!' term | id | true | false | '(' iff ')'
+  which shares no code and no strategy with the model (the model splits at the first occurrence of an
+  operator in a token tree, the reference parser reads left to right with one token of look-ahead).
+-/
 namespace B.Drive.C14
-open B B.Drive
+open B B.Drive B.Parser
 
-def handle (key : String) (_ins _obs : List String) : Verdict := Verdict.bad ("key " ++ key)
+/-! ### text plumbing -/
+
+def hexVal (c : Char) : Nat :=
+  if '0' ≤ c ∧ c ≤ '9' then c.toNat - '0'.toNat
+  else if 'A' ≤ c ∧ c ≤ 'F' then c.toNat - 'A'.toNat + 10
+  else if 'a' ≤ c ∧ c ≤ 'f' then c.toNat - 'a'.toNat + 10 else 0
+
+def pctBytes : List Char → ByteArray → ByteArray
+  | '%' :: a :: b :: tl, acc => pctBytes tl (acc.push (UInt8.ofNat (16 * hexVal a + hexVal b)))
+  | c :: tl, acc => pctBytes tl (acc.push (UInt8.ofNat c.toNat))
+  | [], acc => acc
+
+/-- percent-decoding without the `~` convention -/
+def decRaw (s : String) : Option (List Char) :=
+  (String.fromUTF8? (pctBytes s.toList ByteArray.empty)).map (·.toList)
+
+/-- a string field: `~` is the empty string -/
+def dec (s : String) : Option (List Char) := if s == "~" then some [] else decRaw s
+
+def hexDigit (n : Nat) : Char := if n < 10 then Char.ofNat (48 + n) else Char.ofNat (55 + n)
+
+def pctByte (b : UInt8) : String := String.ofList ['%', hexDigit (b.toNat / 16), hexDigit (b.toNat % 16)]
+
+def enc (cs : List Char) : String :=
+  let bytes := (String.ofList cs).toUTF8
+  let o := bytes.foldl (fun (acc : String) b =>
+    if 0x21 ≤ b.toNat ∧ b.toNat ≤ 0x7e ∧ b.toNat ≠ 0x25 ∧ b.toNat ≠ 0x7e ∧ b.toNat ≠ 0x3b ∧
+        ¬(acc.isEmpty ∧ b.toNat = 0x3d)   -- a leading `=` is escaped (field separator is ` =>`)
+    then acc.push (Char.ofNat b.toNat) else acc ++ pctByte b) ""
+  if o.isEmpty then "~" else o
+
+def encName (cs : List Char) : String :=
+  (String.ofList cs).toUTF8.foldl (fun (acc : String) b =>
+    let c := Char.ofNat b.toNat
+    if c.isAlphanum || c == '_' then acc.push c else acc ++ pctByte b) ""
+
+def sexp : Expr → String
+  | .const true => "c1"
+  | .const false => "c0"
+  | .var n => "v(" ++ encName n ++ ")"
+  | .not e => "not(" ++ sexp e ++ ")"
+  | .and l r => "and(" ++ sexp l ++ "," ++ sexp r ++ ")"
+  | .or l r => "or(" ++ sexp l ++ "," ++ sexp r ++ ")"
+  | .xor l r => "xor(" ++ sexp l ++ "," ++ sexp r ++ ")"
+  | .imp l r => "imp(" ++ sexp l ++ "," ++ sexp r ++ ")"
+  | .iff l r => "iff(" ++ sexp l ++ "," ++ sexp r ++ ")"
+  | .cond c t e => "ite(" ++ sexp c ++ "," ++ sexp t ++ "," ++ sexp e ++ ")"
+
+/-- reader of the S-expression form; fuel = length of the text -/
+def unsexpGo : Nat → List Char → Option (Expr × List Char)
+  | 0, _ => none
+  | fuel + 1, cs =>
+    let head := cs.takeWhile (fun c => c != '(' && c != ',' && c != ')')
+    let rest := cs.dropWhile (fun c => c != '(' && c != ',' && c != ')')
+    let h := String.ofList head
+    if h == "c1" then some (.const true, rest)
+    else if h == "c0" then some (.const false, rest)
+    else match rest with
+      | '(' :: r1 =>
+        if h == "v" then
+          let nm := r1.takeWhile (· != ')')
+          match r1.dropWhile (· != ')'), decRaw (String.ofList nm) with
+          | ')' :: r2, some name => some (.var name, r2)
+          | _, _ => none
+        else
+          let un (k : Expr → Expr) : Option (Expr × List Char) :=
+            match unsexpGo fuel r1 with
+            | some (a, ')' :: r2) => some (k a, r2)
+            | _ => none
+          let bin (k : Expr → Expr → Expr) : Option (Expr × List Char) :=
+            match unsexpGo fuel r1 with
+            | some (a, ',' :: r2) =>
+              match unsexpGo fuel r2 with
+              | some (b, ')' :: r3) => some (k a b, r3)
+              | _ => none
+            | _ => none
+          if h == "not" then un .not
+          else if h == "and" then bin .and
+          else if h == "or" then bin .or
+          else if h == "xor" then bin .xor
+          else if h == "imp" then bin .imp
+          else if h == "iff" then bin .iff
+          else if h == "ite" then
+            match unsexpGo fuel r1 with
+            | some (a, ',' :: r2) =>
+              match unsexpGo fuel r2 with
+              | some (b, ',' :: r3) =>
+                match unsexpGo fuel r3 with
+                | some (c, ')' :: r4) => some (.cond a b c, r4)
+                | _ => none
+              | _ => none
+            | _ => none
+          else none
+      | _ => none
+
+def unsexp (s : String) : Option Expr :=
+  match unsexpGo (s.length + 1) s.toList with
+  | some (e, []) => some e
+  | _ => none
+
+def showOutcome : Outcome Expr → String
+  | .ok e => "ok " ++ sexp e
+  | .err _ => "err"
+  | .panic _ => "panic"
+
+def showShort : Outcome Expr → String
+  | .ok e => "o" ++ sexp e
+  | .err _ => "e"
+  | .panic _ => "p"
+
+/-! ### the independent reference parser -/
+
+inductive FTok where
+  | lp | rp | bang | amp | bar | hat | arrow | darrow | quest | colon
+  | ident (s : List Char)
+deriving DecidableEq, Repr
+
+/-- Unicode `White_Space` code points, listed one by one (deliberately not the model's `isWs`) -/
+def wsCodes : List Nat :=
+  [0x09, 0x0A, 0x0B, 0x0C, 0x0D, 0x20, 0x85, 0xA0, 0x1680, 0x2000, 0x2001, 0x2002, 0x2003, 0x2004, 0x2005,
+   0x2006, 0x2007, 0x2008, 0x2009, 0x200A, 0x2028, 0x2029, 0x202F, 0x205F, 0x3000]
+
+def refWs (c : Char) : Bool := wsCodes.contains c.toNat
+
+/-- characters that end an identifier according to the documentation of `NOT_IN_VAR_NAME` (lib.rs) -/
+def refSpecial (c : Char) : Bool := "!&|^=<>()?:".toList.contains c
+
+def flush (cur : List Char) (acc : List FTok) : List FTok :=
+  if cur.isEmpty then acc else FTok.ident cur.reverse :: acc
+
+/-- flat lexer, accumulator style; `none` = lexical error. `cur` = reversed pending identifier -/
+def refLex : List Char → List Char → List FTok → Option (List FTok)
+  | [], cur, acc => some (flush cur acc).reverse
+  | '<' :: '=' :: '>' :: tl, cur, acc => refLex tl [] (FTok.darrow :: flush cur acc)
+  | '=' :: '>' :: tl, cur, acc => refLex tl [] (FTok.arrow :: flush cur acc)
+  | c :: tl, cur, acc =>
+    if refWs c then refLex tl [] (flush cur acc)
+    else if c == '(' then refLex tl [] (FTok.lp :: flush cur acc)
+    else if c == ')' then refLex tl [] (FTok.rp :: flush cur acc)
+    else if c == '!' then refLex tl [] (FTok.bang :: flush cur acc)
+    else if c == '&' then refLex tl [] (FTok.amp :: flush cur acc)
+    else if c == '|' then refLex tl [] (FTok.bar :: flush cur acc)
+    else if c == '^' then refLex tl [] (FTok.hat :: flush cur acc)
+    else if c == '?' then refLex tl [] (FTok.quest :: flush cur acc)
+    else if c == ':' then refLex tl [] (FTok.colon :: flush cur acc)
+    else if refSpecial c then none      -- a lone `=`, `<`, `>`
+    else refLex tl (c :: cur) acc
+
+abbrev PRes := Option (Expr × List FTok)
+
+/-- right-associative binary level: `next (op level)?` -/
+def binLevel (next self : List FTok → PRes) (op : FTok) (mk : Expr → Expr → Expr) (ts : List FTok) : PRes :=
+  match next ts with
+  | some (l, t :: rest) =>
+    if t = op then
+      match self rest with
+      | some (r, rest') => some (mk l r, rest')
+      | none => none
+    else some (l, t :: rest)
+  | r => r
+
+/-- recursive descent; level 0 term, 1 xor, 2 and, 3 or, 4 cond, 5 imp, 6 iff; fuel bounds the depth -/
+def refParse : Nat → Nat → List FTok → PRes
+  | 0, _, _ => none
+  | fuel + 1, 0, ts =>
+    match ts with
+    | FTok.bang :: rest => (refParse fuel 0 rest).map fun (e, r) => (Expr.not e, r)
+    | FTok.ident s :: rest =>
+      some ((if s = "true".toList then Expr.const true else if s = "false".toList then Expr.const false else Expr.var s), rest)
+    | FTok.lp :: rest =>
+      match refParse fuel 6 rest with
+      | some (e, FTok.rp :: rest') => some (e, rest')
+      | _ => none
+    | _ => none
+  | fuel + 1, 1, ts => binLevel (refParse fuel 0) (refParse fuel 1) FTok.hat Expr.xor ts
+  | fuel + 1, 2, ts => binLevel (refParse fuel 1) (refParse fuel 2) FTok.amp Expr.and ts
+  | fuel + 1, 3, ts => binLevel (refParse fuel 2) (refParse fuel 3) FTok.bar Expr.or ts
+  | fuel + 1, 4, ts =>
+    match refParse fuel 3 ts with
+    | some (c, FTok.quest :: rest) =>
+      match refParse fuel 3 rest with
+      | some (t, FTok.colon :: rest') =>
+        match refParse fuel 3 rest' with
+        | some (e, rest'') => some (Expr.cond c t e, rest'')
+        | none => none
+      | _ => none
+    | r => r
+  | fuel + 1, 5, ts => binLevel (refParse fuel 4) (refParse fuel 5) FTok.arrow Expr.imp ts
+  | fuel + 1, _, ts => binLevel (refParse fuel 5) (refParse fuel 6) FTok.darrow Expr.iff ts
+
+/-- the reference answer: `some e` iff the string is in the documented language, `e` its tree -/
+def reference (s : List Char) : Option Expr :=
+  match refLex s [] [] with
+  | none => none
+  | some ts =>
+    match refParse (8 * ts.length + 16) 6 ts with
+    | some (e, []) => some e
+    | _ => none
+
+def showRef : Option Expr → String
+  | some e => "ok " ++ sexp e
+  | none => "err"
+
+def showRefShort : Option Expr → String
+  | some e => "o" ++ sexp e
+  | none => "e"
+
+/-! ### batches -/
+
+def tokens : Array String := #["a", "b", "true", "false", "!", "&", "|", "^", "=>", "<=>", "?", ":", "(", ")"]
+
+def render (ids : List Nat) : List Char := (" ".intercalate (ids.map fun i => tokens[i]!)).toList
+
+def parseIds (s : String) : List Nat := if s == "~" then [] else s.toList.map hexVal
+
+/-- completion number `j` of `k` more tokens, first added token most significant -/
+def completion (k j : Nat) : List Nat := (List.range k).map fun i => (j / 14 ^ (k - 1 - i)) % 14
+
+/-- parser-safe name: non-empty, no whitespace, no `NOT_IN_VAR_NAME` character, not a keyword
+    (independent formulation used by the round-trip predicate) -/
+def safeName (s : List Char) : Bool :=
+  !s.isEmpty && s.all (fun c => !refWs c && !refSpecial c) && s != "true".toList && s != "false".toList
+
+def safeNames : Expr → Bool
+  | .const _ => true
+  | .var s => safeName s
+  | .not e => safeNames e
+  | .and l r | .or l r | .xor l r | .imp l r | .iff l r => safeNames l && safeNames r
+  | .cond c t e => safeNames c && safeNames t && safeNames e
+
+def Expr.size : Expr → Nat
+  | .const _ | .var _ => 1
+  | .not e => 1 + Expr.size e
+  | .and l r | .or l r | .xor l r | .imp l r | .iff l r => 1 + Expr.size l + Expr.size r
+  | .cond c t e => 1 + Expr.size c + Expr.size t + Expr.size e
+
+def firstMismatch (xs ys : List String) (i : Nat := 0) : Option Nat :=
+  match xs, ys with
+  | [], [] => none
+  | x :: xs, y :: ys => if x == y then firstMismatch xs ys (i + 1) else some i
+  | _, _ => some i
+
+def handle (key : String) (ins obs : List String) : Verdict :=
+  match key, ins, obs with
+  | "C14.tok", [x], o | "C14.chr", [x], o | "C14.rnd", [x], o =>
+    match dec x with
+    | none => Verdict.bad "encoding"
+    | some cs =>
+      let observed := " ".intercalate o
+      let model := showOutcome (parse cs)
+      let want := showRef (reference cs)
+      let fail := if observed == "panic" then some "never-panics"
+        else if observed == want then none
+        else if want == "err" then some ("accepted-outside-grammar:expected=err")
+        else if observed == "err" then some ("rejected-grammar-string:expected=" ++ want)
+        else some ("wrong-tree:expected=" ++ want)
+      { agree := model == observed, model, fail,
+        nontrivial := cs.length > 0,
+        tags := [(o.headD "?"), s!"len{Nat.log2 (cs.length + 1)}"] ++
+          (if cs.contains '(' then ["paren"] else []) ++ (if cs.contains '?' then ["cond"] else []) }
+  | "C14.tokb", [p, k], [res] =>
+    match k.toNat? with
+    | none => Verdict.bad "args"
+    | some k =>
+      let prefixIds := parseIds p
+      let items := res.splitOn ";"
+      let total := 14 ^ k
+      let strs := (List.range total).map fun j => render (prefixIds ++ completion k j)
+      let modelItems := strs.map fun cs => showShort (parse cs)
+      let wantItems := strs.map fun cs => showRefShort (reference cs)
+      let fail :=
+        if items.any (· == "p") then
+          some ("never-panics:" ++ enc (strs.getD ((items.findIdx? (· == "p")).getD 0) []))
+        else match firstMismatch items wantItems with
+          | none => none
+          | some i => some (s!"grammar:input={enc (strs.getD i [])}:expected={wantItems.getD i "?"}:observed={items.getD i "?"}")
+      let agree := items == modelItems
+      let oks := (items.filter (·.startsWith "o")).length
+      { agree, model := (match firstMismatch items modelItems with
+          | some i => s!"input={enc (strs.getD i [])}:model={modelItems.getD i "?"}"
+          | none => "-"),
+        fail, nontrivial := true, tags := ["batch", s!"batchOk{Nat.log2 (oks + 1)}"] }
+  | "C14.wsb", [st, cnt], [res] =>
+    match st.toNat?, cnt.toNat? with
+    | some st, some cnt =>
+      let cls (f : List Char → Option (Option Expr)) (cp : Nat) : Char :=
+        if (0xD800 ≤ cp ∧ cp ≤ 0xDFFF) ∨ cp > 0x10FFFF then '-' else
+        let c := Char.ofNat cp
+        match f ['a', c] with
+        | none => 'p'
+        | some none => 'e'
+        | some (some (.var n)) => if n = ['a'] then 'w' else if n = ['a', c] then 'i' else 'o'
+        | some (some _) => 'o'
+      let viaModel := fun cs => match parse cs with | .ok e => some (some e) | .err _ => some none | .panic _ => none
+      let viaRef := fun cs => some (reference cs)
+      let model := String.ofList ((List.range cnt).map fun i => cls viaModel (st + i))
+      let want := String.ofList ((List.range cnt).map fun i => cls viaRef (st + i))
+      let fail := if res.contains 'p' then some "never-panics"
+        else if res == want then none
+        else
+          let i := (firstMismatch (res.toList.map toString) (want.toList.map toString)).getD 0
+          some s!"whitespace-or-identifier-class:codepoint={st + i}"
+      { agree := model == res, model := (if model == res then "-" else
+          s!"codepoint={st + (firstMismatch (res.toList.map toString) (model.toList.map toString)).getD 0}"),
+        fail, nontrivial := res.contains 'w' || res.contains 'e', tags := ["wsb"] }
+    | _, _ => Verdict.bad "args"
+  | "C14.rt", [t], [printed, k, _tree] | "C14.rt", [t], [printed, k] | "C14.rtu", [t], [printed, k, _tree] | "C14.rtu", [t], [printed, k] =>
+    match unsexp t with
+    | none => Verdict.bad "sexp"
+    | some e =>
+      let observed := if obs.length == 3 then k ++ " " ++ (obs.getD 2 "") else k
+      let shown := display e
+      let model := enc shown ++ " " ++ showOutcome (parse shown)
+      let claimed := key == "C14.rt"
+      let fail :=
+        if printed == "panic" || observed == "panic" then some "never-panics"
+        else if !claimed then none            -- no claim for names that are not parser-safe
+        else if !safeNames e then some "harness: unsafe name in the safe stream"
+        else match dec printed with
+          | none => some "encoding"
+          | some ps =>
+            if reference ps != some e then some "printed-form-is-not-a-grammar-string-for-the-tree"
+            else if observed != "ok " ++ sexp e then some ("round-trip:parse(display(e))=" ++ observed)
+            else none
+      { agree := model == printed ++ " " ++ observed, model, fail,
+        nontrivial := Expr.size e > 1,
+        tags := [if claimed then "rt" else "rt-unsafe", s!"size{Nat.log2 (Expr.size e)}", k] }
+  | _, _, _ => Verdict.bad ("key " ++ key)
 
 end B.Drive.C14
